@@ -247,7 +247,7 @@ pub fn execute(bodies: Vec<Body>, prefix: &[usize], on_step: &mut dyn FnMut(usiz
     };
     if result.is_err() {
         // release everybody so that the threads can end: mark all parked as running repeatedly
-        let deadline = Instant::now() + Duration::from_secs(5);
+        let deadline = Instant::now() + Duration::from_secs(30);
         loop {
             let mut g = inst.st.lock();
             if g.iter().all(|p| matches!(p, P::Finished | P::Absent)) || Instant::now() > deadline {
